@@ -234,8 +234,36 @@ def run_case(ctx, name, params):
                     ops.append(("mutate", ind.id))
                 elif c < 0.9:
                     ind = r.choice(pool)
+                    holder = None
+                    if ts and r.random() < 0.02:
+                        # another connection holds the write lock for a while (a second worker, a viewer...): the busy time-out
+                        # is shortened to 50 ms so that the synchronisation runs into "database is locked" and has to retry
+                        import threading
+                        import time as _t
+                        from .. import sqlproxy
+                        held = threading.Event()
+
+                        def hold():
+                            cn = sqlproxy.REAL_CONNECT(path, isolation_level=None, timeout=1.0)
+                            cn.execute("BEGIN EXCLUSIVE")
+                            held.set()
+                            _t.sleep(0.13)
+                            cn.execute("COMMIT")
+                            cn.close()
+                        holder = threading.Thread(target=hold)
+                        holder.start()
+                        held.wait(2.0)
+                        prx = sqlproxy.Proxy(timeout=0.05)
+                        prx.install()
                     try:
-                        store.sync_individual(ind)
+                        try:
+                            store.sync_individual(ind)
+                        finally:
+                            if holder is not None:
+                                prx.uninstall()
+                                holder.join()
+                                ctx.count("syncs_under_lock_contention")
+                                ctx.count("database_locked_errors_provoked", prx.locked_errors)
                     except Exception as e:
                         ctx.violation("sync/exception", "sync_individual raised %r" % e, wit({"individual": snapshot(ind)}))
                         return
